@@ -77,6 +77,14 @@ impl Fq2 {
         }
         let b = self.c1;
         let a = self.c0;
+        if b.is_zero() {
+            // an element of Fq is always a square in Fq2: either a = s^2,
+            // or (2 being a non-residue of Fq) -a/2 = s^2 and a = (s*u)^2
+            return match a.sqrt() {
+                Some(s) => Some(Self::new(s, Fq::zero())),
+                None => (-a).div2().sqrt().map(|s| Self::new(Fq::zero(), s)),
+            };
+        }
         let bb = b.squared();
         let aa = a.squared();
         let u = aa + bb.double();
